@@ -92,8 +92,9 @@ def job_gemini():
         names = (["linear", "rbf", "sigmoid"] if which == "mmd" else ["euclidean", "cosine", "manhattan"])
         import copy
         for ovo in (False, True):
-            cases = [(names[0], None), (names[1], {"gamma": 0.5}), (names[2], {"coef0": 2.0, "gamma": 3.0})] if which == "mmd" else \
-                    [(names[0], None), (names[0], {"squared": True}), (names[1], None), (names[2], None)]
+            # parameter values that are falsy (0, 0.0, False) are values like any other: they must be forwarded, not dropped
+            cases = [(names[0], None), (names[1], {"gamma": 0.5}), (names[2], {"coef0": 2.0, "gamma": 3.0}), (names[2], {"coef0": 0, "gamma": 0.0, "degree": 3})] if which == "mmd" else \
+                    [(names[0], None), (names[0], {"squared": True}), (names[0], {"squared": False}), (names[1], None), (names[2], None)]
             for nm, params in cases:
                 try:
                     est = cls(**{attr: nm, pattr: params, "ovo": ovo})
@@ -195,7 +196,7 @@ def job_kernels():
     T = harness.free_matrix(4, 2, "t")
     Ymat = harness.symmetric_matrix(3, "pre")
     checks = []
-    for nm, params in [("linear", None), ("rbf", {"gamma": 0.5}), ("poly", {"degree": 2, "coef0": 1.0})]:
+    for nm, params in [("linear", None), ("rbf", {"gamma": 0.5}), ("poly", {"degree": 2, "coef0": 1.0}), ("poly", {"degree": 3, "coef0": 0})]:
         est = lin.KernelRIM(base_kernel=nm, base_kernel_params=params)
         est.input_data_ = T
         n0 = len(rec.calls)
@@ -399,7 +400,7 @@ def replay(rep, verbose=False):
                     b = km.Kauri(kernel="precomputed", max_clusters=2).fit(X, A)
                     return (not np.array_equal(a.labels_, b.labels_)) or abs(a.score(X) - b.score(X, A)) > 1e-9
             if cname == "KernelRIM" and what.startswith("kernel"):
-                for nm, params in [("rbf", {"gamma": 0.5}), ("poly", {"degree": 2, "coef0": 1.0}), ("linear", None)]:
+                for nm, params in [("rbf", {"gamma": 0.5}), ("poly", {"degree": 2, "coef0": 1.0}), ("poly", {"degree": 3, "coef0": 0}), ("linear", None)]:
                     est = lin.KernelRIM(base_kernel=nm, base_kernel_params=params)
                     est.input_data_ = T
                     if not np.allclose(est._compute_kernel(X), pairwise_kernels(X, T, metric=nm, **(params or {}))):
@@ -431,7 +432,7 @@ def replay(rep, verbose=False):
                         return True
                 if (modn, cn) in MMD_EST:
                     for ovo in (False, True):
-                        for nm, params in [("rbf", {"gamma": 0.5}), ("sigmoid", {"coef0": 2.0, "gamma": 3.0}), ("linear", None)]:
+                        for nm, params in [("rbf", {"gamma": 0.5}), ("sigmoid", {"coef0": 2.0, "gamma": 3.0}), ("sigmoid", {"coef0": 0, "gamma": 3.0}), ("poly", {"coef0": 0.0, "degree": 2}), ("linear", None)]:
                             g = cls(kernel=nm, kernel_params=params, ovo=ovo).get_gemini()
                             if not isinstance(g, gm.MMDGEMINI) or g.ovo is not ovo or not np.allclose(g.compute_affinity(X), pairwise_kernels(X, metric=nm, **(params or {}))):
                                 return True
